@@ -1,5 +1,6 @@
 import LLRP.Proofs.ClientLive
 import LLRP.Model.Initial
+import LLRP.Gen.Gate
 /-!
 # C08 — nothing is sent before a successful connection event; requests wait for setup
 
@@ -185,5 +186,20 @@ def demoReject : List Act :=
 example : (run init demoReject).ackQ = [7] ∧ (run init demoReject).written = [] ∧
     (run init demoReject).verdict = some false ∧ (run init demoReject).conn = .returned .fail ∧
     ((run init demoReject).callers 1).pc = .done .closed := by decide
+
+/-! ## where the source opens the gate (regenerated from `reader.go` on every run) -/
+
+/-- **gate_sites.** The LTS opens `ready` in two actions only: `connRejectReady` (no writer goroutine exists) and
+`connReady` (negotiation has succeeded).  The source agrees: every `close(c.ready)` that comes after the writer
+goroutine was started comes after the call of negotiate() and is not on an error path, and `ready` is closed nowhere
+but in Connect. -/
+theorem gate_sites :
+    ∀ s ∈ Gen.closeSites, s.field = "ready" →
+      s.func = "Client.Connect" ∧ (s.writerLive = true → s.afterNegotiate = true ∧ s.onErrPath = false) := by
+  decide
+
+/-- the table is not empty: there is a reject-path site without a writer and a success-path site with one -/
+example : (Gen.closeSites.any fun s => s.field == "ready" && !s.writerLive && s.onErrPath) = true ∧
+    (Gen.closeSites.any fun s => s.field == "ready" && s.writerLive && !s.onErrPath) = true := by decide
 
 end LLRP.C08
